@@ -819,7 +819,21 @@ class HeapExec(DynExec):
             r = self._allany_concrete(is_all, gen.data[0], st)
             if r is not None:
                 return r
-            return [(st, SBool(fresh('UNEVALUATED_all' if is_all else 'UNEVALUATED_any', z3.BoolSort())))]
+            kind = 'UNEVALUATED'
+            try:
+                # a test over the children of a node that nothing has looked at yet (their list comes into being with
+                # this very expression): no fact of the path constrains them, so both outcomes are realisable inputs -
+                # a FREE boolean, which a counter-model may use (unlike an UNEVALUATED one, see spec.discharge)
+                node = gen.data[0]
+                if len(node.generators) == 1 and not node.generators[0].ifs:
+                    probe = st.fork()
+                    before = set(probe.lists)
+                    rr = self.eval(node.generators[0].iter, probe)
+                    if len(rr) == 1 and isinstance(rr[0][1], LRef) and rr[0][1].lid not in before:
+                        kind = 'FREE'
+            except (OutsideSubset, PyExc):
+                pass
+            return [(st, SBool(fresh('%s_%s' % (kind, 'all' if is_all else 'any'), z3.BoolSort())))]
         if isinstance(gen, tuple):
             parts = [self.truth(x, st) for x in gen]
             r = self.conj(parts) if is_all else self.disj(parts)
